@@ -195,7 +195,9 @@ def string_st(limit, markup=True):
             # not NFC-stable (decomposed accent, Angstrom / Ohm signs, CJK compatibility ideograph): strings are code-point sequences
             "Ame\u0301lie", "\u212b\u2126", "\uf900x", "\u0958\ufb2a", "Caf\ufeffe", "\ufeffx",
             # values that look like another type's text or like a placeholder
-            "0", "000000", "N", "Y", "NONE", "null", "-1", "1e5", "20200101"]
+            "0", "000000", "N", "Y", "NONE", "null", "-1", "1e5", "20200101",
+            # URL-shaped text is text too (upper case in scheme and host, empty query / fragment marks)
+            "HTTPS://OFX.Example.COM/Path?", "https://User@Host.example/x#", "http://EXAMPLE.org"]
     if markup:
         pool += ["AT&T", "a<b", "a>b", "<&>", "a & b < c", "R&amp;D", "&lt;", "a&nbsp;b", "&quot;x&quot;", "it&apos;s", "&amp;nbsp;x", "&#38;", "a&b;c", "AT&amp;amp;T", "x&amp;nbsp;y", "&amp;lt;b&amp;gt;", "&amp;quot;q&amp;quot;", "&amp;amp;amp;"]
     base = st.one_of(
@@ -210,7 +212,10 @@ def string_st(limit, markup=True):
 
 def int_st(length):
     hi = 10**length - 1 if length is not None else 10**9
-    return st.one_of(st.integers(0, hi), st.sampled_from([0, 1, hi]), st.integers(-min(hi, 999), -1))
+    # besides the range and its ends: the numbers that mean something to someone (OFX status codes, years) and the most
+    # negative number of n digits
+    notable = [v for v in (0, 1, hi, -hi, 2000, 2020, 15000, 15500, 15501, 15510, 13504, 1999, 2024) if abs(v) <= hi]
+    return st.one_of(st.integers(0, hi), st.sampled_from(notable), st.integers(-min(hi, 999), -1))
 
 
 def dec_text_st(scale):
@@ -278,6 +283,9 @@ def wide_scalar_st(t):
         )
         # at the limit, then over it by blanks / no-break spaces / a combining mark only (must be refused, not written)
         over = st.sampled_from([" ", "  ", "\u00a0", "\u0301", "\t"]).map(lambda pad: "x" * cap + pad) if cap <= 300 else st.just("x ")
+        if isinstance(t, Types.NagString) and cap <= 300:
+            # warn-only strings are accepted beyond their nominal length: common enough to be generated often
+            main = st.one_of(main, main, st.integers(1, 40).map(lambda k: "n" * (cap + k)))
         return _rarely(main, over).map(lambda x: ["str", x])
     if isinstance(t, Types.OneOf):
         # mostly declared tokens; sometimes a spelling that differs only in case, or a foreign token (must be refused, or
